@@ -276,8 +276,13 @@ func (s *Streamer) parseEvents(ctx context.Context, events <-chan replication.Bi
 			_log.Debugf("parseEvents pos: %+v binlog event is a table map event, tableID: %v table map: %+v",
 				pos, tableID, *tm)
 
-			if _, ok = tablesMaps[tableID]; ok {
-				tablesMaps[tableID].tableMap = tm
+			// A table id may be announced again for a different table (ids are
+			// reused after DDL or a master restart): keep the cached mapper table
+			// only if it was obtained for this very table and still fits.
+			if tc, ok := tablesMaps[tableID]; ok &&
+				tc.tableMap.Database == tm.Database && tc.tableMap.Name == tm.Name &&
+				len(tc.table.Columns()) == tm.CanBeNull.Count() {
+				tc.tableMap = tm
 				continue
 			}
 
